@@ -788,6 +788,25 @@ def _inline_key_tiebreak(fn, assign, body, loop_ids):
     return len(compared) >= 2
 
 
+def _inserted_at_search_position(call, vec_local, body):
+    """`let p = match v.binary_search(&x) { Ok(p) | Err(p) => p }; .. v.insert(p, x)`: the element goes where the order on
+    whole elements puts it (elements that compare equal are equal values), so the sequence is sorted after every step and
+    a cut at its end (`pop`, `truncate`) removes the same elements whatever the order of arrival"""
+    pos, elem = peel_refs(call["args"][0]), peel_refs(call["args"][1])
+    if pos.get("k") != "Path" or "local" not in pos:
+        return False
+    for y in walk(body):
+        if y.get("k") == "LetStmt" and y.get("init") is not None and y["pat"].get("k") == "Bind" and y["pat"]["local"] == pos["local"]:
+            for z in walk(y["init"]):
+                if z.get("k") == "MethodCall" and z["name"] in ("binary_search", "partition_point") and root_local(z["recv"]) is not None and root_local(z["recv"])["local"] == vec_local:
+                    if z["name"] == "partition_point":
+                        return False        # a predicate of its own: not read here
+                    arg = peel_refs(z["args"][0]) if z["args"] else {}
+                    if elem.get("k") == "Path" and arg.get("k") == "Path" and arg.get("local") == elem.get("local"):
+                        return True
+    return False
+
+
 def _sorted_right_after(fn, local, loop_body):
     """the first use of `local` after the loop is a sort that is total on the entries (unique key as tie-break)"""
     end = max([y.get("ln") or 0 for y in walk(loop_body)] or [0])
@@ -899,6 +918,8 @@ def classify_effects(fn, body, loop_ids, node, chain):
                     continue
                 if name in ("push", "push_back") and rl is not None and _sorted_right_after(fn, rl["local"], body):
                     continue  # collected in hash order, then sorted totally before anything else looks at it
+                if name == "insert" and rl is not None and len(n["args"]) == 2 and _inserted_at_search_position(n, rl["local"], body):
+                    continue  # kept sorted on the whole element: the content after the loop is a function of the set of entries
                 problems.append("`%s.%s(..)` appends to a sequence in iteration order" % (r.e(n["recv"])[:40], name))
             elif name in ("assign", "fill", "copy_from_slice", "swap", "add_assign", "sub_assign", "scaled_add", "mul_assign", "div_assign") and (rat or "").startswith("&mut"):
                 if keyed_target(n["recv"], declared):
